@@ -95,8 +95,8 @@ def collect_S_forwarding(pid, tier):
             is_names = "[ENames]" in k
             if (pid == "C08") != is_names:
                 continue
-            obs.append(Ob("S/fwd/%s/%s/%s" % (m["repr"], m["cell"], k), "ok" if v["ok"] else "failed", "vx-structural",
-                          "" if v["ok"] else "body is %s, expected %s" % (v["got"], v["want"]),
+            obs.append(Ob("S/fwd/%s/%s/%s" % (m["repr"], m["cell"], k), "ok" if v["ok"] else "undecided", "vx-structural",
+                          "" if v["ok"] else "this wrapper method is outside the verified subset and is not the verbatim forward the structural check knows: body is %s, expected %s" % (v["got"], v["want"]),
                           sample={"function": k, "repr": m["repr"], "cell": m["cell"], "expected_body": v["want"]}))
         for k in sorted(m.get("uncontracted_iter_methods", [])):
             is_names = "[ENames]" in k
@@ -356,6 +356,10 @@ def collect_I(pid, tier, seed, include_rejected=False, source="I", props_filter=
         r = artifacts.get_i(tier, seed)
     elif source == "C11":
         r = artifacts.get_c11(tier, seed)
+    elif source == "M":
+        r = artifacts.get_m(tier, seed)
+        if r.get("error"):
+            return [Ob("M/miri", "undecided", "miri", r["error"][:2000])], {"layer_wall_s": r.get("wall_s", 0)}
     else:
         r = artifacts.get_s(tier, seed)["instances"]
     obs = []
@@ -385,10 +389,10 @@ def collect_I(pid, tier, seed, include_rejected=False, source="I", props_filter=
             continue
         if fails:
             f = fails[0]
-            obs.append(Ob("I/%s" % modname, "failed", "rustc+native", "%s %s: %s" % (f["prop"], f["check"], f["detail"]),
+            obs.append(Ob("%s/%s" % ("M" if source == "M" else "I", modname), "failed", "miri" if source == "M" else "rustc+native", "%s %s: %s" % (f["prop"], f["check"], f["detail"]),
                           sample=desc, replay={"mod": modname, "decl": r.get("decls", {}).get(modname), "fail": f, "seed": seed, "tier": tier}))
         else:
-            obs.append(Ob("I/%s" % modname, "ok", "rustc+native", sample=desc))
+            obs.append(Ob("%s/%s" % ("M" if source == "M" else "I", modname), "ok", "miri" if source == "M" else "rustc+native", sample=desc))
         if len(meta["samples"]) < 3 and desc:
             meta["samples"].append(desc)
     if include_rejected:
@@ -484,6 +488,21 @@ def do_replay(path):
         v = r["modules"][specs[0].mod]
         print("REPLAY %s: must_be_rejected=%s rejected=%s %s" % (specs[0].mod, v["must_be_rejected"], v["rejected"], v["message"][:300]))
         return 0 if v["rejected"] == v["must_be_rejected"] else 1
+    if info.get("module", "").startswith("m_"):
+        from . import layer_m
+        with Scratch("vf-replay-") as sc:
+            r = layer_m.run_layer_m(sc, tier, seed, only={info["module"]})
+        if r.get("error"):
+            print("REPLAY: miri run failed: " + r["error"][:1500])
+            return 2
+        bad = 0
+        for m, e in r["modules"].items():
+            for fl in e["fails"]:
+                print("REPLAY FAIL (miri) %s %s %s: %s" % (m, fl["prop"], fl["check"], fl["detail"]))
+                bad += 1
+        if bad == 0:
+            print("REPLAY: the instance passes under Miri on the current tree")
+        return 1 if bad else 0
     # rebuild the corpus entry by module name from the generator (same seed/tier)
     specs = artifacts.quick_instance_corpus(seed) if tier == "quick" else corpus.instance_corpus("thorough", seed)
     specs = [s for s in specs if s.mod == info["module"]]
@@ -528,26 +547,30 @@ def decide(pid, obs, tier, record_baseline=False):
         return violations, undecided, known_hits
     bodies = load_bodies()
     for o in obs:
-        if o.status == "failed" and o.kinds and all(k == "scaffolding" for k in o.kinds) and o.body_hash \
-                and bodies.get(o.id.replace("T32/", "T/")) not in (None, o.body_hash) and o.id.startswith(("T/", "T32/", "G/")):
-            # only proof annotations (loop invariant / assert / lemma precondition) fail, and the function's
-            # body is not the one the annotations were written for: the proof is broken, the property is
-            # not refuted — undecided unless an instance layer shows a concrete failing input
-            undecided.append(Ob(o.id, "undecided", o.backend, "the body of this function changed and only proof annotations fail (no semantic obligation refuted); "
-                                "not decided by layer T\n" + o.detail))
+        if o.status == "failed" and o.body_hash and o.id.startswith(("T/", "T32/", "G/")) \
+                and bodies.get(o.id.replace("T32/", "T/")) not in (None, o.body_hash):
+            # The body of this function is not the one the annotations were written for.  A refutation by
+            # the deductive verifier then has two possible causes — the code is wrong, or the proof no longer
+            # fits (a behaviour-preserving rewrite may need a different invariant or lemma) — and the verifier
+            # gives no counterexample that could tell them apart.  It is reported as undecided; a violation of
+            # a rewritten function needs a concrete failing input from the layers that run the real code
+            # (I native, K Kani, M Miri, R Kani) — those are reported by their own obligations.
+            what = "only proof annotations fail" if (o.kinds and all(k == "scaffolding" for k in o.kinds)) else "a semantic obligation is refuted"
+            undecided.append(Ob(o.id, "undecided", o.backend, "the body of this function changed and %s; without a counterexample layer T cannot tell a broken proof "
+                                "from a broken property\n" % what + o.detail))
             continue
         if o.status == "failed":
             k = known_match(pid, o, known)
             if k:
                 known_hits.append((k, o))
-            elif o.id in base or o.id.startswith("I/") or o.id.startswith("K/") or o.id.startswith("S/") or o.id.startswith("R/") or o.id.startswith("G/"):
+            elif o.id in base or o.id.startswith("I/") or o.id.startswith("M/") or o.id.startswith("K/") or o.id.startswith("S/") or o.id.startswith("R/") or o.id.startswith("G/"):
                 violations.append(o)
             else:
                 undecided.append(Ob(o.id, "undecided", o.backend, "obligation fails but is not in the baseline of obligations discharged on the unchanged tree; treated as a defect of the machinery until shown otherwise\n" + o.detail))
         elif o.status == "undecided":
             undecided.append(o)
     for b in sorted(base - ids):
-        if b.startswith("I/"):
+        if b.startswith(("I/", "M/")):
             continue
         undecided.append(Ob(b, "undecided", "-", "baseline obligation was not generated on this tree (lost anchor / changed item set)"))
     return violations, undecided, known_hits
